@@ -561,9 +561,17 @@ func (e *panicEngine) checkCall(fn *ssa.Function, nf *nilFacts, oblige obligeFn,
 		// bounded-draw precondition n >= 1 is checked at the call site
 		for _, bd := range e.roles.BoundedDraw {
 			if bd == callee && len(com.Args) == 1 {
+				if e.roles.PickHelpers[fn] {
+					oblige(c, "bounded draw inside a uniform-pick helper: bound >= 1 is established at every call site of the helper (collection non-empty)", true, "")
+					continue
+				}
 				ok, why := e.boundPositive(e.prover(fn), c, com.Args[0])
 				oblige(c, "bounded draw: bound >= 1 (the n==0 panic is unreachable)", ok, why)
 			}
+		}
+		if e.roles.PickHelpers[callee] && len(com.Args) == 1 {
+			ok, why := e.lenPositive(e.prover(fn), c, com.Args[0])
+			oblige(c, "uniform pick: the collection is non-empty (so the helper's draw has bound >= 1)", ok, why)
 		}
 		e.analyze(callee, nf.calleeCtx(c, callee))
 		return
@@ -581,6 +589,47 @@ func (e *panicEngine) checkCall(fn *ssa.Function, nf *nilFacts, oblige obligeFn,
 		return
 	}
 	e.r.Unrecognised(e.rule, core.FuncName(fn), "call of foreign function "+name, e.p.InstrPos(c), "not on the list of functions known not to panic for the arguments the module passes")
+}
+
+// lenPositive proves len(coll) >= 1 at call site c: by LIN, or through a
+// dominating guard F(copy) != 0 where F is the saturated length of the very
+// path coll is loaded from (same stable struct copy).
+func (e *panicEngine) lenPositive(pv *core.Prover, c ssa.CallInstruction, coll ssa.Value) (bool, string) {
+	b := c.Block()
+	goal := pv.LenForm(coll).Scale(-1).Plus(1)
+	ok, why := pv.ProveLE(b, goal)
+	if ok {
+		return true, ""
+	}
+	root, path, okP := valueAccessPath(coll)
+	if okP && stableRoot(root) {
+		for _, g := range core.Guards(b) {
+			rel, isRel := core.AsRel(g)
+			if !isRel {
+				continue
+			}
+			x, y := rel.X, rel.Y
+			if _, isC := x.(*ssa.Const); isC {
+				x, y = y, x
+			}
+			k, isC := core.ConstUint(y)
+			gc, isCall := core.Strip(x).(*ssa.Call)
+			if !isC || !isCall || len(gc.Call.Args) != 1 {
+				continue
+			}
+			nonZero := (rel.Op == token.NEQ && k == 0) || (rel.Op == token.GTR && k == 0) || (rel.Op == token.GEQ && k == 1)
+			f := core.StaticCallee(gc)
+			if !nonZero || f == nil {
+				continue
+			}
+			sp, okS := sizeSummary(e.p, f, 0)
+			r2, p2, ok2 := valueAccessPath(gc.Call.Args[0])
+			if okS && ok2 && r2 == root && strings.Join(append(append([]string{}, p2...), sp...), ".") == strings.Join(path, ".") {
+				return true, "guarded by " + core.FuncName(f) + "() != 0 on the same struct copy"
+			}
+		}
+	}
+	return false, why
 }
 
 // boundPositive proves bound >= 1 at call site c, looking through the size
